@@ -96,3 +96,54 @@ pub fn ms_panic_only_if<T>(Ghost(allowed): Ghost<bool>) -> (r: T)
 {
     panic!()
 }
+
+// ---- std items used by the selection statement of run_with_ghidra (fragment ms_select_modules) ----
+
+/// `Vec::retain` (std): "Retains only the elements specified by the predicate.  In other words, remove all elements `e` for
+/// which `f(&e)` returns false.  This method operates in place, visiting each element exactly once in the original order, and
+/// preserves the order of the retained elements."  Stated through the predicate's OWN contract: there is a sequence of
+/// decisions `keep`, one per element, each a result the predicate may return for that element, and the vector afterwards is
+/// the old one with exactly the elements decided `true`, in order (`ms_keep`).
+/// (R9 target for `V.retain(F)`: an `assume_specification` of `Vec::<T, A>::retain` would have to name the unstable `Allocator`.)
+#[verifier::external_body]
+pub fn verif_vec_retain<T, F: FnMut(&T) -> bool>(v: &mut Vec<T>, f: F)
+    requires
+        forall |i: int| #![trigger old(v)@[i]] 0 <= i < old(v)@.len() ==> f.requires((&old(v)@[i],)),
+    ensures
+        exists |keep: Seq<bool>| #![trigger ms_keep(old(v)@, keep)] keep.len() == old(v)@.len()
+            && (forall |i: int| #![trigger keep[i]] 0 <= i < keep.len() ==> f.ensures((&old(v)@[i],), keep[i]))
+            && final(v)@ == ms_keep(old(v)@, keep),
+{
+    v.retain(f)
+}
+
+/// the elements of `s` whose decision is `true`, in order
+pub open spec fn ms_keep<T>(s: Seq<T>, keep: Seq<bool>) -> Seq<T>
+    decreases s.len(),
+{
+    if s.len() == 0 || keep.len() != s.len() {
+        Seq::empty()
+    } else if keep.last() {
+        ms_keep(s.drop_last(), keep.drop_last()).push(s.last())
+    } else {
+        ms_keep(s.drop_last(), keep.drop_last())
+    }
+}
+
+/// `<[T]>::contains` (std): "Returns true if the slice contains an element with the given value" -- element EQUALITY
+/// (`PartialEq`), stated with vstd's model of `==` (for `&str`: the same characters).
+pub assume_specification<T: PartialEq> [<[T]>::contains] (s: &[T], x: &T) -> (r: bool)
+    ensures
+        <T as PartialEqSpec>::obeys_eq_spec() ==> r == exists |i: int| 0 <= i < s@.len() && <T as PartialEqSpec>::eq_spec(#[trigger] &s@[i], x),
+;
+
+/// R9 target for `println!("{module}")` (std: prints the `Display` text of the value and a newline to stdout): the
+/// printed VALUES are recorded in a ghost trace, one entry per call.  Which text `impl Display for CweModule` produces for a
+/// value (`"name": "version"`) is not modelled.
+#[verifier::external_body]
+pub fn verif_print_module<'a>(m: &&'a CweModule, out: &mut Ghost<Seq<&'a CweModule>>)
+    ensures
+        final(out)@ == old(out)@.push(*m),
+{
+    println!("\"{}\": \"{}\"", m.name, m.version);
+}
